@@ -652,6 +652,15 @@ func (vt *Model) decstbm(pm [][]int) {
 		top = row(pm[0][0] - 1)
 		bot = row(pm[1][0] - 1)
 	}
+	if top < 0 {
+		// a zero parameter means the default: the first line
+		top = 0
+	}
+	if bot < 0 || bot > row(vt.height())-1 {
+		// zero means the default, the last line. A region can't extend
+		// past the screen either
+		bot = row(vt.height()) - 1
+	}
 	if top >= bot {
 		return
 	}
